@@ -92,6 +92,15 @@ def _build(case):
             else:
                 M[k] -= (2 * v + 1) - v
         return M
+    if how == "declared":
+        # the enumeration is declared with set_mapping, with a gap, before the terms are entered (as in the library's
+        # own test of set_mapping): reduction ancillas must not collide with a declared integer
+        M = cls()
+        labs = variables_of(terms)
+        M.set_mapping({l: (2 * i + 1 if i == len(labs) - 1 else i) for i, l in enumerate(labs)})
+        for k, v in terms.items():
+            M[k] += v
+        return M
     if how == "twin":
         # the same monomial entered under two spellings: python int and numpy.int64 labels are equal objects (one
         # variable), but the library keeps the two keys apart (labels are ordered by type name first), so the model
@@ -335,6 +344,7 @@ def _gen(ctx, salt, lams, quick_n, thorough_n, exhaustive=True):
                 if _twinnable(terms):
                     yield {"type": tname, "terms": terms, "build": "twin", "target": t, "deg": deg, "lam": lams[0],
                            "pairs": None}
+
     # 3. seeded random cases
     rng = ctx.rng(salt)
     for _ in range(ctx.pick(quick_n, thorough_n)):
@@ -547,4 +557,60 @@ def check_pairs(case):
                 return Fail("with pairs=%r: D(s)=%r < M(convert_solution(s))=%r at s=%r"
                             % (case["pairs"], float(st.Dtab[i]), mv, _assignment(i, N, st.spin_d)), key="undercut",
                             observed=repr(st.d))
+    return None
+
+
+# ---------------------------------------------------------------------------------------------
+# models whose enumeration was declared with set_mapping, with gaps (own small harness: the integer labels of the
+# model are not 0..n-1 there)
+# ---------------------------------------------------------------------------------------------
+def _gen_declared(ctx):
+    for tname in TYPES:
+        for terms in ({('a', 'b', 'c'): 1, ('c',): -2}, {('a', 'b', 'c'): -2, ('a', 'b'): 1, ('b', 'c', 'd'): 3},
+                      {('a', 'b', 'c', 'd'): 1, ('a',): -1}):
+            for t in TARGETS:
+                for gap in (1, 2):
+                    yield {"type": tname, "terms": terms, "target": t, "gap": gap}
+
+
+@clause("C01.declared_mapping_gaps", "C01", gen=_gen_declared, nontrivial=lambda c: True)
+def check_declared_gaps(case):
+    """Reduction of a model whose integer enumeration was declared with set_mapping and has a gap (as in the library's
+    own test of set_mapping): the ancilla labels differ from every declared integer, D never undercuts M on
+    converted assignments, and min D == min M (default penalty, all assignments of D's labels)."""
+    cls = cls_of(case["type"])
+    terms = case["terms"]
+    labs = variables_of(terms)
+    decl = {l: (i if i < len(labs) - 1 else i + case["gap"]) for i, l in enumerate(labs)}
+    M = cls()
+    M.set_mapping(dict(decl))
+    for k, v in terms.items():
+        M[k] += v
+    t = case["target"]
+    D = getattr(M, t)() if t in ("to_qubo", "to_quso") else getattr(M, t)(deg=2)
+    d = dict(D)
+    dl = sorted({j for k in d for j in k})
+    spin_m, spin_d = case["type"] in SPIN_M, t in SPIN_D
+    if len(dl) > MAXN:
+        return Skip("scope")
+    mvals = []
+    for x in itertools.product((1, -1) if spin_m else (0, 1), repeat=len(labs)):
+        mvals.append(peval(terms, dict(zip(labs, x))))
+    dmin = None
+    for s_ in itertools.product((1, -1) if spin_d else (0, 1), repeat=len(dl)):
+        sd = dict(zip(dl, s_))
+        full = dict(sd)
+        for l, i in decl.items():
+            full.setdefault(i, 1 if spin_d else 0)
+        dv = peval(d, sd)
+        x = M.convert_solution(full, spin=spin_d)
+        if set(x) != set(labs):
+            return Fail("convert_solution(%r) = %r is not over %r" % (full, x, labs), key="declared-convert")
+        mv = peval(terms, x)
+        if dv < mv - 1e-9:
+            return Fail("D(s)=%r < M(convert_solution(s))=%r at s=%r (mapping %r, D %r)" % (dv, mv, sd, decl, d),
+                        key="declared-undercut")
+        dmin = dv if dmin is None else min(dmin, dv)
+    if abs(dmin - min(mvals)) > 1e-9:
+        return Fail("min D = %r but min M = %r (mapping %r, D %r)" % (dmin, min(mvals), decl, d), key="declared-min")
     return None
